@@ -79,11 +79,12 @@ Qed.
 
 (* The probing loader model (file-order insertion, FindLower's blank entries, AdjustLower, MarkExtends, context
    activation -- lm/search_hashed.cc) establishes the invariants for EVERY well-formed file it accepts, with or without a
-   listed <unk> (then the default probability must be negative, as it always is): unigram keys of length 1, section i
+   listed <unk> (then the default probability must be negative, as it always is), with or without REST_MAX rest costs
+   (which only touch the rest field): unigram keys of length 1, section i
    of order i+2, every word of every n-gram a (possibly synthesised) unigram.  The proof attempt is what exposed findings
    F16/F17 (a file without <unk> whose n-grams contain <unk>). *)
 From Kenlm Require Import LM.LoadProbingProofs.
-Theorem C01_load_probing_inv : forall N buckets (saw_unk : bool) unk_prob (unigrams : list gram) (higher : list (list gram)) t,
+Theorem C01_load_probing_inv : forall N buckets (rest_max saw_unk : bool) unk_prob (unigrams : list gram) (higher : list (list gram)) t,
   (2 <= N)%nat -> length higher = (N - 1)%nat ->
   let U := if saw_unk then unigrams else unk_gram unk_prob :: unigrams in
   let M := M_of (U ++ concat higher) in
@@ -91,12 +92,12 @@ Theorem C01_load_probing_inv : forall N buckets (saw_unk : bool) unk_prob (unigr
   (forall i sec, nth_error higher i = Some sec -> forall g, In g sec -> length (g_key g) = (2 + i)%nat) ->
   (forall g w, In g (U ++ concat higher) -> In w (g_key g) -> M [w] <> None) ->
   (saw_unk = false -> (unk_prob < 0)%Z) ->
-  load_probing buckets false saw_unk unk_prob unigrams higher = Loaded t ->
+  load_probing buckets rest_max saw_unk unk_prob unigrams higher = Loaded t ->
   TInv N (alookup t) M.
 Proof. exact load_probing_inv. Qed.
 
 (* end to end for the probing structure: every accepted well-formed file, every history and word *)
-Corollary C01_probing_end_to_end : forall N buckets (saw_unk : bool) unk_prob (unigrams : list gram) (higher : list (list gram)) t K,
+Corollary C01_probing_end_to_end : forall N buckets (rest_max saw_unk : bool) unk_prob (unigrams : list gram) (higher : list (list gram)) t K,
   (2 <= N)%nat -> length higher = (N - 1)%nat ->
   let U := if saw_unk then unigrams else unk_gram unk_prob :: unigrams in
   let M := M_of (U ++ concat higher) in
@@ -104,10 +105,10 @@ Corollary C01_probing_end_to_end : forall N buckets (saw_unk : bool) unk_prob (u
   (forall i sec, nth_error higher i = Some sec -> forall g, In g sec -> length (g_key g) = (2 + i)%nat) ->
   (forall g w, In g (U ++ concat higher) -> In w (g_key g) -> M [w] <> None) ->
   (saw_unk = false -> (unk_prob < 0)%Z) ->
-  load_probing buckets false saw_unk unk_prob unigrams higher = Loaded t ->
+  load_probing buckets rest_max saw_unk unk_prob unigrams higher = Loaded t ->
   forall ctx w, alookup t [w] <> None ->
   r_prob (fst (full_score_forgot N (alookup t) K ctx w)) = bo_score N M ctx w.
 Proof.
-  intros N buckets saw_unk up unigrams higher t K HN Hl U M HU Hs Hw Hu Hload ctx w Hk.
-  exact (forgot_prob N HN _ _ K (load_probing_inv N buckets saw_unk up unigrams higher t HN Hl HU Hs Hw Hu Hload) ctx w Hk).
+  intros N buckets rm saw_unk up unigrams higher t K HN Hl U M HU Hs Hw Hu Hload ctx w Hk.
+  exact (forgot_prob N HN _ _ K (load_probing_inv N buckets rm saw_unk up unigrams higher t HN Hl HU Hs Hw Hu Hload) ctx w Hk).
 Qed.
